@@ -1730,6 +1730,79 @@ fn execute_run(run: &Run, w: &WorldData, rc: &RunCfg, sc: &Scratch, san: bool) -
 	});
 	let conc_ms = t_conc.elapsed().as_millis() as u64;
 	verif_hooks::sched_arm(0);
+	// ---- the database's own bookkeeping at quiescence. Every third run first lets 8 threads hammer the lock-free
+	// read calls (each opens and closes database transactions) so that closes coincide; afterwards no transaction is
+	// open, and the environment must know that: a count that drifted upwards makes the next map enlargement wait for
+	// ever (with every later transaction queued behind it).
+	if rc.k % 3 == 0 && !san && ctx.panics.load(Ordering::SeqCst) == 0 {
+		tick(0, OP_JOINING);
+		let n = w.all.len().max(1);
+		std::thread::scope(|s| {
+			for t in 0..8usize {
+				let chain = &chain;
+				let w = &w;
+				s.spawn(move || {
+					init_thread(true);
+					for i in 0..12_000usize {
+						let _ = chain.head();
+						let _ = chain.header_head();
+						if i % 4 == t % 4 {
+							let _ = chain.block_exists(w.all[(i + t) % n].hash);
+						}
+					}
+				});
+			}
+		});
+		run.count("reader_storms_before_the_quiescence_check", 1);
+	}
+	{
+		let open = chain.store().verif_open_txs_count();
+		run.count("quiescent_open_transaction_counts_read", 1);
+		if open != 0 {
+			// confirm the consequence: grow the database across its next enlargement from a helper thread
+			run.count("quiescent_open_transaction_count_not_zero", 1);
+			let store = chain.store();
+			let dir2 = dir.clone();
+			let (txd, rxd) = std::sync::mpsc::channel();
+			let seed = rc.plan_seed;
+			std::thread::spawn(move || {
+				let mut p = Prng::new(seed ^ 0x6A0);
+				let start = db_file_size(&dir2);
+				let mut n = 0u64;
+				while db_file_size(&dir2) < start + 1_300_000 && n < 20_000 {
+					let mut batch = match store.batch() {
+						Ok(b) => b,
+						Err(_) => break,
+					};
+					for _ in 0..100 {
+						let mut h = BlockHeader::default();
+						h.height = 2_000_000 + n;
+						vcommon::world::skip_pow_proof(&mut h, &mut p);
+						let _ = batch.save_block_header(&h);
+						n += 1;
+					}
+					if batch.commit().is_err() {
+						break;
+					}
+				}
+				let _ = txd.send(n);
+			});
+			match rxd.recv_timeout(Duration::from_secs(25)) {
+				Ok(_) => run.count("observation.open_transaction_count_drifted_but_the_database_still_grew", 1),
+				Err(_) => {
+					ctx.viol(
+						"deadlock_at_database_map_enlargement",
+						format!(
+							"with every thread joined and no transaction open the database counts {} open transaction(s); growing it across its next map enlargement then never returns (Store::batch waits for the count to reach 0, every later transaction queues behind it): 25 s without completion",
+							open
+						),
+					);
+					// the helper thread is stuck for good: this process is of no further use
+					run.finish_worker();
+				}
+			}
+		}
+	}
 	let sched_after = verif_hooks::sched_stats();
 	tick(0, OP_FINAL_REDELIVERY);
 	let mut st = std::mem::take(&mut *ctx.stats.lock().unwrap());
@@ -2533,6 +2606,8 @@ fn main() {
 	req("segment.roots_checked", 500, 4000);
 	req("sched_points_perturbed", 10000, 100000);
 	req("runs_that_crossed_a_database_map_enlargement", 40, 400);
+	req("reader_storms_before_the_quiescence_check", 30, 300);
+	req("quiescent_open_transaction_counts_read", 200, 1800);
 	req("same_plan_other_schedule_gave_other_interleaving", 10, 100);
 	if run.n_violations() == 0 {
 		req("diverged_header_chain.states_where_the_header_chain_covers_the_body_height", 12, 48);
